@@ -311,6 +311,9 @@ const IMPORT_FORMS: &[&str] = &[
   "import j@N from \"@T\" with { type: \"json\" };\n",
   "import t@N from \"@T\" with { type: \"text\" };\n",
   "export type I@N = import(\"@T\").X;\n",
+  "import source s@N from \"@T\";\n",
+  "import b@N from \"@T\" with { type: \"bytes\" };\n",
+  "const ds@N = await import.source(\"@T\");\n",
 ];
 const TARGETS: &[&str] = &["./a.ts", "./b.ts", "./c.js", "./data.json", "./types.d.ts", "./missing.ts", "jsr:@s/b@1", "npm:x@1", "https://x/remote.ts", "./sub/d.ts"];
 
